@@ -296,6 +296,18 @@ IOInputs == { <<>>, <<"l1\n">>, <<"l1">>, <<"\n", "z\n">>, <<"a\n", "b\n", "c">>
               <<"ke", "pt\n", "x">>, <<"a\nb\n", "c\n">>,              \* a line delivered in pieces; two lines delivered at once
               <<"kept\nx">>, <<"k", "e", "pt", "\n", "x">>, <<"kept", "\nx">> }   \* the same bytes as <<"ke", "pt\n", "x">>, cut elsewhere
 IOInputsU == { <<"~\n", "b~">> }
+(* lines with blanks at their ends: a line is taken as typed, only its line end is removed *)
+IOInputsB == { <<"a  \n", " \n", "b\t\n">>, <<" lead and trail \n", "\t">> }
+(* I/O that happens while an EXPRESSION is evaluated (a called function says and listens), in every statement position: a fault   *)
+(* there stops the program like any other                                                                                         *)
+IOFun == SFunc(0, "fun", <<"p">>, <<Say(Var("p")), SListen(0, Var("got")), SReturn(0, Var("got"))>>)
+IOCall(t) == Call("fun", <<S(t)>>)
+IOExprStmts == { Say(IOCall("a")), Put(IOCall("a"), "r"), SRock(0, Var("q"), <<IOCall("a"), IOCall("b")>>), SRock(0, Var("q"), <<S("s"), IOCall("a")>>),
+                 SIf(0, IOCall("a"), <<SayS("t")>>, TRUE, <<SayS("f")>>), SWhile(0, Un("not", IOCall("a")), <<SayS("in"), SBreak(0)>>),
+                 Say(Idx(Var("q"), IOCall("a"))), SAssign(0, Idx(Var("q"), IOCall("a")), "none", <<IOCall("b")>>),
+                 SMut(0, "cut", Var("s"), Var("t"), IOCall("a")), SCall(0, "fun", <<IOCall("a")>>), Say(Bin("plus", IOCall("a"), <<IOCall("b"), S("!")>>)),
+                 SAssign(0, Var("s"), "plus", <<IOCall("a")>>), Say(Bin("and", IOCall("a"), <<IOCall("b")>>)) }
+IOExprProgs == { << <<IOFun>>, <<Put(S("x,y"), "s"), st, SayS("end")>> >> : st \in IOExprStmts }
 IOProgs == Seqs1(IOOps) \cup Seqs2(IOOps, IOOps) \cup (IF Tier = "quick" THEN {} ELSE { <<a, b, c>> : a, b, c \in IOOps })
 -----------------------------------------------------------------------------
 (* DICT: arrays with several non-numeric keys that are joined, printed, compared, or named in an error *)
@@ -315,13 +327,23 @@ DTails == {
   <<Say(Lt(Var("x"), Lit(Bool(TRUE))))>>,
   <<SAssign(0, Idx(Var("x"), N(0)), "none", <<N(1)>>), SAssign(0, Idx(Var("x"), S("q")), "none", <<Lit(Bool(TRUE))>>), SMut(0, "join", Var("x"), ENone, ENone)>>
 }
+(* a long array (34 elements and 6 keyed entries) printed, joined, compared and named in an error: nothing about a value's text may *)
+(* depend on its size                                                                                                              *)
+DBigFill(n, ks) == <<SRock(0, Var("x"), [i \in 1..n |-> S("e")])>> \o DFill(ks)
+DBigTails == { <<SMut(0, "cast", Var("x"), ENone, ENone)>>, <<Say(Lt(Var("x"), Lit(Bool(TRUE))))>>,
+               <<SMut(0, "join", Var("x"), Var("y"), S("/")), Say(Var("y"))>>,
+               <<Say(Var("x")), Say(Idx(Var("x"), Var("x")))>>,
+               <<Put(Var("x"), "y"), SRoll(0, Var("y"), ENone), Say(Eq(Var("x"), Var("y"))), STurn(0, "up", Var("y"))>> }
+DAllKeys == <<S("a"), S("b"), S("c"), Lit(Null), Lit(Bool(TRUE)), S(""), Lit(Bool(FALSE)), Lit(Myst)>>
+DBigPrograms == { << DBigFill(34, SubSeq(DAllKeys, 1, 6)) \o t >> : t \in DBigTails }
+                \cup { << DBigFill(n, DAllKeys) \o t >> : n \in {20, 26, 28, 60}, t \in DBigTails }
 DKeySeqs == { <<a, b, c>> : a, b, c \in DKeys } \cup (IF Tier = "quick" THEN {} ELSE { <<a, b, c, d>> : a, b, c, d \in DKeys })
 (* a second array filled with the same entries in the opposite order is the same array *)
 DFillY(ks) == [i \in 1..Len(ks) |-> SAssign(0, Idx(Var("y"), ks[Len(ks) + 1 - i]), "none", <<DVal(ks[Len(ks) + 1 - i])>>)]
 DCompare(ks) == DFillY(ks) \o <<Say(Eq(Var("x"), Var("y"))), Say(Bin("ne", Var("x"), <<Var("y")>>)),
                                 SRock(0, Var("o"), <<Var("x")>>), SRock(0, Var("q"), <<Var("y")>>), Say(Eq(Var("o"), Var("q"))),
                                 SAssign(0, Idx(Var("y"), ks[1]), "none", <<S("other")>>), Say(Eq(Var("x"), Var("y")))>>
-DICTPrograms(z) == { << DFill(ks) \o t >> : ks \in { q \in DKeySeqs : \A i, j \in 1..Len(q) : i # j => q[i] # q[j] }, t \in DTails }
+DICTPrograms(z) == DBigPrograms \cup { << DFill(ks) \o t >> : ks \in { q \in DKeySeqs : \A i, j \in 1..Len(q) : i # j => q[i] # q[j] }, t \in DTails }
                    \cup { << DFill(ks) \o DCompare(ks) >> : ks \in { q \in DKeySeqs : \A i, j \in 1..Len(q) : i # j => q[i] # q[j] } }
 
 -----------------------------------------------------------------------------
